@@ -1,88 +1,90 @@
 /-
-C04 proofs — `Reach` holds in every reachable state of the repaired protocol (programs without `reset`), and at
-quiescence it yields: every context bound beneath a cancelled one is cancelled.
+C04 proofs — `Reach` holds in every reachable state of the repaired protocol (programs with or without `reset`, as long as
+`reset` does not store to my_may_have_children), and at quiescence it yields: every context bound beneath a context whose
+winning cancel is still current is cancelled, unless it (or a context between the two) was reset after that cancel won.
 -/
 import TbbVerif.Proofs.C04.ReachK
+import TbbVerif.Proofs.C04.HintAll
 
 namespace TbbVerif.C04
-variable {reg : List Nat} {s : St} {t : Nat}
+variable {r : List RF} {reg : List Nat} {s : St} {t : Nat}
 
-theorem reach_exec (hS : Struct reg s) (hO : Orig s) (hR : Reach reg s) : Reach reg (exec C reg s t) where
-  propMx := propMx_exec hS hO hR
-  propHeld := propHeld_exec hS hO hR
-  noResetOp := noResetOp_exec hS hO hR
-  noResetPc := noResetPc_exec hS hO hR
-  epochLe := epochLe_exec hS hO hR
-  epochNear := epochNear_exec hS hO hR
-  epochFree := epochFree_exec hS hO hR
-  epochWalk := epochWalk_exec hS hO hR
-  srcCan := srcCan_exec hS hO hR
-  skipCan := skipCan_exec hS hO hR
-  walkG := walkG_exec hS hO hR
-  syncG := syncG_exec hS hO hR
-  wonCan := wonCan_exec hS hO hR
-  pend := pend_exec hS hO hR
-  listed := listed_exec hS hR
-  snapLe := snapLe_exec hS hO hR
-  snapEpoch := snapEpoch_exec hS hO hR
-  spec := spec_exec hS hO hR
-  copyTrue := copyTrue_exec hS hO hR
-  mhcReg := mhcReg_exec hS hO hR
-  mhcBind := mhcBind_exec hS hO hR
-  fbDone := fbDone_exec hS hO hR
-  walked := walked_exec hS hO hR
-  painting := painting_exec hS hO hR
+theorem reach_exec (hS : Struct reg s) (hO : Orig s) (hH : Hint s) (hR : Reach reg s) : Reach reg (exec (C r) reg s t) where
+  propMx := propMx_exec hS hO hH hR
+  propHeld := propHeld_exec hS hO hH hR
+  epochLe := epochLe_exec hS hO hH hR
+  joinedLe := joinedLe_exec hS hO hH hR
+  freshLe := freshLe_exec hS hO hH hR
+  epochNear := epochNear_exec hS hO hH hR
+  epochFree := epochFree_exec hS hO hH hR
+  epochWalk := epochWalk_exec hS hO hH hR
+  walkG := walkG_exec hS hO hH hR
+  syncG := syncG_exec hS hO hH hR
+  snapLe := snapLe_exec hS hO hH hR
+  snapEpoch := snapEpoch_exec hS hO hH hR
+  copyTrue := copyTrue_exec hS hO hH hR
+  wstLe := wstLe_exec hS hO hH hR
+  pstLe := pstLe_exec hS hO hH hR
+  skipLe := skipLe_exec hS hO hH hR
+  curCan := curCan_exec hS hO hH hR
+  pend := pend_exec hS hO hH hR
+  listed := listed_exec hS hH hR
+  spec := spec_exec hS hO hH hR
+  fbDone := fbDone_exec hS hO hH hR
+  walked := walked_exec hS hO hH hR
+  painting := painting_exec hS hO hH hR
 
-theorem reach_begin (hS : Struct reg s) (hO : Orig s) (hR : Reach reg s) (hi : s.pc t = .idle) :
-    Reach reg (begin reg s t) where
-  propMx := propMx_begin hS hO hR hi
-  propHeld := propHeld_begin hS hO hR hi
-  noResetOp := noResetOp_begin hS hO hR hi
-  noResetPc := noResetPc_begin hS hO hR hi
-  epochLe := epochLe_begin hS hO hR hi
-  epochNear := epochNear_begin hS hO hR hi
-  epochFree := epochFree_begin hS hO hR hi
-  epochWalk := epochWalk_begin hS hO hR hi
-  srcCan := srcCan_begin hS hO hR hi
-  skipCan := skipCan_begin hS hO hR hi
-  walkG := walkG_begin hS hO hR hi
-  syncG := syncG_begin hS hO hR hi
-  wonCan := wonCan_begin hS hO hR hi
-  pend := pend_begin hS hO hR hi
-  listed := listed_begin hS hO hR hi
-  snapLe := snapLe_begin hS hO hR hi
-  snapEpoch := snapEpoch_begin hS hO hR hi
-  spec := spec_begin hS hO hR hi
-  copyTrue := copyTrue_begin hS hO hR hi
-  mhcReg := mhcReg_begin hS hO hR hi
-  mhcBind := mhcBind_begin hS hO hR hi
-  fbDone := fbDone_begin hS hO hR hi
-  walked := walked_begin hS hO hR hi
-  painting := painting_begin hS hO hR hi
+theorem reach_begin (hS : Struct reg s) (hO : Orig s) (hH : Hint s) (hR : Reach reg s) (hi : s.pc t = .idle) :
+    Reach reg (begin (C r) reg s t) where
+  propMx := propMx_begin hS hO hH hR hi
+  propHeld := propHeld_begin hS hO hH hR hi
+  epochLe := epochLe_begin hS hO hH hR hi
+  joinedLe := joinedLe_begin hS hO hH hR hi
+  freshLe := freshLe_begin hS hO hH hR hi
+  epochNear := epochNear_begin hS hO hH hR hi
+  epochFree := epochFree_begin hS hO hH hR hi
+  epochWalk := epochWalk_begin hS hO hH hR hi
+  walkG := walkG_begin hS hO hH hR hi
+  syncG := syncG_begin hS hO hH hR hi
+  snapLe := snapLe_begin hS hO hH hR hi
+  snapEpoch := snapEpoch_begin hS hO hH hR hi
+  copyTrue := copyTrue_begin hS hO hH hR hi
+  wstLe := wstLe_begin hS hO hH hR hi
+  pstLe := pstLe_begin hS hO hH hR hi
+  skipLe := skipLe_begin hS hO hH hR hi
+  curCan := curCan_begin hS hO hH hR hi
+  pend := pend_begin hS hO hH hR hi
+  listed := listed_begin hS hR hi
+  spec := spec_begin hS hO hH hR hi
+  fbDone := fbDone_begin hS hO hH hR hi
+  walked := walked_begin hS hO hH hR hi
+  painting := painting_begin hS hO hH hR hi
 
-/-- the three invariants together -/
-def AllInv (reg : List Nat) (s : St) : Prop := Struct reg s ∧ Orig s ∧ Reach reg s
+/-- the four invariants together -/
+def AllInv (reg : List Nat) (s : St) : Prop := Struct reg s ∧ Orig s ∧ Hint s ∧ Reach reg s
 
-theorem allInv_step (h : AllInv reg s) : AllInv reg (step C reg s t) :=
+theorem allInv_step (hm : RF.mhc ∉ r) (h : AllInv reg s) : AllInv reg (step (C r) reg s t) :=
   step_preserves (P := AllInv reg)
-    (fun _ _ hi h => ⟨struct_begin h.1 hi, orig_begin h.1 h.2.1 hi, reach_begin h.1 h.2.1 h.2.2 hi⟩)
-    (fun _ _ h => ⟨struct_exec h.1, orig_exec h.1 h.2.1, reach_exec h.1 h.2.1 h.2.2⟩) s t h
+    (fun _ _ hi h => ⟨struct_begin h.1 hi, orig_begin h.1 h.2.1 hi, hint_begin h.1 hm h.2.2.1 hi,
+      reach_begin h.1 h.2.1 h.2.2.1 h.2.2.2 hi⟩)
+    (fun _ _ h => ⟨struct_exec h.1, orig_exec h.1 h.2.1, hint_exec h.1 hm h.2.2.1,
+      reach_exec h.1 h.2.1 h.2.2.1 h.2.2.2⟩) s t h
 
-theorem reach_init (prog : Nat → List Op) (hnr : ∀ t x, Op.reset x ∉ prog t) : Reach reg (init prog) := by
+theorem reach_init (reg : List Nat) (prog : Nat → List Op) : Reach reg (init reg prog) := by
   constructor <;> simp [init, Pc.inProp, Pc.walkFrom, Pc.walkSrc, Pc.wonSrc, Pc.preWalk, Pc.snapVal, Pc.afterSpec,
-    Pc.copyVal, Pc.pastHint, Pc.pending, Pc.coverOf]
-  · exact hnr
-  · intro n h; omega
+    Pc.copyVal, Pc.pastHint, Pc.pending, Pc.coverOf, Cur, St.eff]
 
-theorem allInv_run (reg : List Nat) (prog : Nat → List Op) (hnr : ∀ t x, Op.reset x ∉ prog t) (sched : List Nat) :
-    AllInv reg ((CtxTree C reg prog).run sched) :=
-  Sys.inv_run (CtxTree C reg prog) (AllInv reg) ⟨struct_init prog, orig_init prog, reach_init prog hnr⟩
-    (fun _ _ h => allInv_step h) sched
+theorem allInv_run (hm : RF.mhc ∉ r) (reg : List Nat) (prog : Nat → List Op) (sched : List Nat) :
+    AllInv reg ((CtxTree (C r) reg prog).run sched) :=
+  Sys.inv_run (CtxTree (C r) reg prog) (AllInv reg) ⟨struct_init reg prog, orig_init reg prog, hint_init reg prog, reach_init reg prog⟩
+    (fun _ _ h => allInv_step hm h) sched
 
-/-- at quiescence every context bound beneath a cancelled one is cancelled -/
-theorem reaches_of_inv (h : AllInv reg s) (hq : ∀ t, s.pc t = .idle) {x a : Nat} (hb : s.cst x = .bound)
-    (ha : Anc s.par x a) (hc : s.can a = true) : s.can x = true := by
-  obtain ⟨hS, hO, hR⟩ := h
+/-- at quiescence: every context bound beneath a context `a` whose winning cancel (stamp `m`) is current is cancelled,
+unless it, or a context strictly between it and `a`, was reset after `m` or is registered in the context list of a thread
+that has left the registry -/
+theorem reaches_of_inv (h : AllInv reg s) (hq : ∀ t, s.pc t = .idle) {x a m : Nat} (hb : s.cst x = .bound)
+    (ha : Anc s.par x a) (hc : Cur s.wst s.rst a m) (hfresh : ¬ Stale s.par s.rst s.oc m a x) : s.can x = true := by
+  obtain ⟨hS, hO, hH, hR⟩ := h
   -- x is registered
   have hdy : s.dying x = false := by
     cases hd : s.dying x with
@@ -93,15 +95,14 @@ theorem reaches_of_inv (h : AllInv reg s) (hq : ∀ t, s.pc t = .idle) {x a : Na
       · rw [hq t] at ht; simp [Pc.destroying] at ht
   obtain ⟨L, _, hmem⟩ := hS.boundReg x hb hdy
   have hLreg := (hS.itemsOk L x hmem).2.1
-  -- the cancelled ancestor is justified by a winner b above (or equal to) it
-  obtain ⟨b, hba, hw⟩ := hO.can a hc
-  have hxb : Anc s.par x b := by
-    rcases hba with e | h
-    · exact e ▸ ha
-    · exact ha.trans h
-  -- whose propagation is complete
-  have hpass : PassedUpTo s.skip s.srcOf s.G b := by
-    rcases hR.pend b hw with h | ⟨t, ht⟩
+  -- in the list of a thread that is still registered
+  have hact : s.act L = true := by
+    cases hl : s.act L with
+    | true => rfl
+    | false => exact (hfresh (Or.inl (Or.inr (hS.ocItems L x hmem hl)))).elim
+  -- the cancellation of a is complete
+  have hpass : Passed s.skipSt s.srcOf s.pst s.G a m := by
+    rcases hR.pend a m hc with h | ⟨t, ht⟩
     · exact h
     · rw [hq t] at ht; simp [Pc.preWalk] at ht
   have hfree : s.propMx = none := by
@@ -111,9 +112,10 @@ theorem reaches_of_inv (h : AllInv reg s) (hq : ∀ t, s.pc t = .idle) {x a : Na
       have := hR.propHeld t hp
       rw [hq t] at this
       simp [Pc.inProp] at this
-  have he := hR.epochFree L hLreg hfree
-  rcases hR.listed L x b hmem (he ▸ hpass) hxb with h | ⟨t, ht⟩
+  have he := hR.epochFree L hLreg hact hfree
+  rcases hR.listed L x a m hmem (he ▸ hpass) hc ha with (h | h) | ⟨t, ht⟩
   · exact h
+  · exact (hfresh h).elim
   · rw [hq t] at ht; simp [Pc.coverOf] at ht
 
 end TbbVerif.C04
